@@ -589,6 +589,27 @@ pub fn units() -> Vec<Unit> {
             IoMode(false),
         ],
     },
+    // builder E: `set_tx_power_and_ramp_time` of the SX126x instantiated at the Stm32wl variant
+    Unit {
+        module: "Gen.PhyEncEWl",
+        file: "lora-phy/src/sx126x/mod.rs",
+        more_files: vec!["lora-phy/src/sx126x/variant.rs", "lora-phy/src/sx126x/radio_kind_params.rs", "lora-phy/src/mod_params.rs", "lora-modulation/src/lib.rs"],
+        imports: vec!["LoraVerif.RtPhy", "LoraVerif.Gen.PhyCodes126", "LoraVerif.Gen.PhyArith", "LoraVerif.Gen.PhyErr"],
+        items: vec![
+            ExternUnit("Gen.PhyCodes126"),
+            ExternUnit("Gen.PhyArith"),
+            ExternUnit("Gen.PhyErr"),
+            Enum("DeviceSel"),
+            Struct("ModulationParams"),
+            Struct("Stm32wl"),
+            Alias("C", "Stm32wl"),
+            Struct("Config"),
+            StructPartial("Sx126x", &["config"]),
+            IoMode(true),
+            TraitFn("RadioKind", "Sx126x", "set_tx_power_and_ramp_time"),
+            IoMode(false),
+        ],
+    },
     // ---- builder N (tie A for more stateful methods)
     // C11: `Otaa::handle_rx` — the join step.  The crypto stays abstract: the radio buffer is what
     // `check_mic_and_decrypt_in_place` yields on it under a key (`none` = `Err`), the decrypted view exposes
